@@ -5,15 +5,19 @@
    (true = that submit attempt is refused) under SOME schedule" - every theorem is therefore quantified over all
    schedules, programs, producer counts, capacities >= 1, both executors and all fault lists.
 
-   REFUTED / PARTIAL (finding, signature ticket-gap): the sentences "pending items always have a running or launched
-   consumer" and "join() returns only after everything submitted before it was consumed" are false of the code at full
-   strength even when no launch is ever refused (c16_never_stranded_refuted, c16_join_returns_after_refuted: witness
-   program [[execute; join]; [execute]], replayed on the real code by checks/c16.py).  What holds is proved as
-   c16_never_stranded_partial (the head ticket is then held by a producer that has not signalled yet - it will signal
-   and launch a consumer) and c16_join_returns_after_partial (the sentence holds whenever no other execute() is between
-   taking its ticket and signalling).  Liveness ("and it does return") is proved as: while join() must wait the counter
-   has exactly one owner and that owner is enabled (c16_join_returns_partial); the step from there to termination under
-   a fair scheduler is the standard argument and is not mechanised. *)
+   History: against the code before fix f78c0c5 the sentences "pending items always have a running or launched
+   consumer" and "join() returns only after everything submitted before it was consumed" were refuted (try_pop_n stops
+   at a ticket that is taken but not yet published; the consumer then gave up its role although later tickets were
+   signalled).  The fix (consume_until_empty keeps its role while _queue.size() != 0) is modelled (pc CSize, the test
+   and the size formula are regenerated from the source) and the sentences are now proved at full strength:
+   c16_never_stranded, c16_join_returns_after (+ _history).  `stale s = false` = "the last reset of the counter to zero
+   was a consumer's exit, not the roll-back of a refused launch" - this is the property's "as long as the executor
+   accepts the launch"; it is re-established by the exit of the next consumer that runs (resumption after a refusal).
+   Liveness ("and it does return"): c16_join_returns - no reachable state with an unfinished thread is a deadlock
+   (unless a refused launch is outstanding), and while join() has to wait the unique owner of the counter is enabled
+   (c16_join_returns_owner_enabled).  The step from "never stuck" to "terminates under a fair scheduler" (every
+   consumer loop iteration either consumes, or waits for a producer that is itself enabled) is the standard argument and
+   is not mechanised. *)
 From Coq Require Import ZArith List Bool.
 Require Import Verif.Gen.Gen_execution_queue Verif.Conc.Machine Verif.EQ.EQModel Verif.EQ.EQProofs.
 Import ListNotations.
@@ -63,51 +67,48 @@ Theorem c16_events_iff_owner : forall cap asy flt progs s, (1 <= cap)%nat -> Rea
 Proof. exact eq_events_iff_owner. Qed.
 Print Assumptions c16_events_iff_owner.
 
-(* never stranded - full statement refuted, see header *)
-Theorem c16_never_stranded_refuted : exists progs s k c,
-  Reach 4 true [] progs s /\ nth_error (cells s) k = Some c /\ (npop s <= k)%nat /\ cpub c = true /\ csig c = true /\
-  returned (threads s) c = true /\ owners (threads s) = 0%nat /\ events s = 0 /\ stale s = false.
-Proof. exact eq_never_stranded_refuted. Qed.
-Print Assumptions c16_never_stranded_refuted.
+(* never stranded: an item whose producer has signalled (its fetch_add on the counter is done - in particular every
+   item whose execute() has returned) and that is not yet delivered always has an owner of the counter working for it:
+   events > 0 and exactly one launched/running consumer or launching producer *)
+Theorem c16_never_stranded : forall cap asy flt progs s k x, (1 <= cap)%nat -> Reach cap asy flt progs s ->
+  stale s = false -> nth_error (cells s) k = Some x -> csig x = true -> (ndel s <= k)%nat ->
+  0 < events s /\ owners (threads s) = 1%nat.
+Proof. exact eq_never_stranded. Qed.
+Print Assumptions c16_never_stranded.
 
-(* never stranded - proved part: whenever the counter is zero and its last reset was a consumer's exit (not the
-   roll-back of a refused launch), the head ticket of the queue - if there is one - belongs to a producer that has
-   not signalled yet; in particular everything behind it will be consumed by the consumer that signal launches.
-   Holds for arbitrary fault lists: after a refused launch, the next consumer that runs re-establishes it. *)
-Theorem c16_never_stranded_partial : forall cap asy flt progs s, (1 <= cap)%nat -> Reach cap asy flt progs s ->
-  events s = 0 -> stale s = false -> forall c, nth_error (cells s) (npop s) = Some c -> csig c = false.
-Proof. exact eq_cover. Qed.
-Print Assumptions c16_never_stranded_partial.
-
-(* join returns only after ... - full statement refuted, see header *)
-Theorem c16_join_returns_after_refuted : exists progs s th m,
-  Reach 4 true [] progs s /\ nth_error (threads s) 0 = Some th /\ nth_error (prog th) 0 = Some OExec /\
-  results th = [RExec 0; RJoin m] /\ m <> 0%nat.
-Proof. exact eq_join_returns_after_refuted. Qed.
-Print Assumptions c16_join_returns_after_refuted.
-
-(* join returns only after ... - proved part: a join() that returns while no execute() is between taking its ticket
-   and its fetch_add on the counter (and the last reset was not a refused launch) returns with every ticket ever
-   taken delivered and released; its recorded result is RJoin 0.  (With a single producer thread this is the full
-   statement.) *)
-Theorem c16_join_returns_after_partial : forall cap asy flt progs s t th s', (1 <= cap)%nat -> Reach cap asy flt progs s ->
+(* join() returns only after everything submitted before it was consumed: at the step at which a join() returns,
+   every ticket whose execute() has returned (a fortiori returned before the join began) is delivered and released;
+   the recorded result is RJoin 0 *)
+Theorem c16_join_returns_after : forall cap asy flt progs s t th s', (1 <= cap)%nat -> Reach cap asy flt progs s ->
   nth_error (threads s) t = Some th -> tpc th = Idle -> nth_error (prog th) (opi th) = Some OJoin ->
   step s t = Some s' -> stale s = false ->
-  (forall t' th', nth_error (threads s) t' = Some th' -> in_flight th' = false) ->
-  (length (cells s) <= ndel s)%nat /\
+  (forall k x, nth_error (cells s) k = Some x -> returned (threads s) x = true -> (k < ndel s)%nat) /\
   exists th', nth_error (threads s') t = Some th' /\ results th' = results th ++ [RJoin 0].
-Proof. exact eq_join_returns_after_partial. Qed.
-Print Assumptions c16_join_returns_after_partial.
+Proof. exact eq_join_returns_after. Qed.
+Print Assumptions c16_join_returns_after.
 
-(* "and it does return", proved part *)
-Theorem c16_join_returns_partial : forall cap asy flt progs s, (1 <= cap)%nat -> Reach cap asy flt progs s ->
+(* the same over whole histories, for an executor that never refuses: no join() ever returned with an item missing *)
+Theorem c16_join_returns_after_history : forall cap asy progs s t th m, (1 <= cap)%nat -> Reach cap asy [] progs s ->
+  nth_error (threads s) t = Some th -> In (RJoin m) (results th) -> m = 0%nat.
+Proof. exact eq_join_results_zero. Qed.
+Print Assumptions c16_join_returns_after_history.
+
+(* "and it does return": no reachable state is a trap ... *)
+Theorem c16_join_returns : forall cap asy flt progs s, (1 <= cap)%nat -> Reach cap asy flt progs s ->
+  stale s = false -> all_done s = false -> exists t, step s t <> None.
+Proof. exact eq_no_deadlock. Qed.
+Print Assumptions c16_join_returns.
+
+(* ... and while join() has to wait (counter non-zero) the unique owner of the counter can take a step *)
+Theorem c16_join_returns_owner_enabled : forall cap asy flt progs s, (1 <= cap)%nat -> Reach cap asy flt progs s ->
   events s <> 0 -> exists t th, nth_error (threads s) t = Some th /\ is_owner th = true /\ step s t <> None.
 Proof. exact eq_waiting_join_has_enabled_owner. Qed.
-Print Assumptions c16_join_returns_partial.
+Print Assumptions c16_join_returns_owner_enabled.
 
-(* the memory orders the argument relies on are the ones in the source; push is ticket-then-publish *)
-Theorem c16_memory_order_obligations : orders_ok = true /\ push_is_ticketed = true.
-Proof. exact (conj eq_orders_ok eq_push_is_ticketed). Qed.
+(* the memory orders the argument relies on are the ones in the source; push is ticket-then-publish; size() reads
+   both indices *)
+Theorem c16_memory_order_obligations : orders_ok = true /\ push_is_ticketed = true /\ size_is_two_loads = true.
+Proof. exact (conj eq_orders_ok (conj eq_push_is_ticketed eq_size_is_two_loads)). Qed.
 Print Assumptions c16_memory_order_obligations.
 
 (* non-vacuity: a run with a refused launch, a recovery signal that is accepted, and everything consumed *)
@@ -115,3 +116,12 @@ Example c16_resume_example : Reach 2 true [true] resume_progs resume_state /\ al
   stale resume_state = false /\ delivered resume_state = [(0, 0)]%nat /\
   (exists th, nth_error (threads resume_state) 0 = Some th /\ results th = [RExec (-1); RSignal 0; RJoin 0]).
 Proof. exact resume_example. Qed.
+
+(* non-vacuity of c16_never_stranded on the former counter-example: ticket 0 taken but unpublished, ticket 1 published,
+   signalled, its execute() returned, nothing delivered - the consumer keeps its role, the counter stays non-zero *)
+Example c16_gap_example : Reach 4 true [] gap_progs gap_state /\ events gap_state = 1 /\ stale gap_state = false /\
+  (exists x, nth_error (cells gap_state) 1 = Some x /\ csig x = true /\ returned (threads gap_state) x = true) /\
+  ndel gap_state = 0%nat /\
+  (exists th, nth_error (threads gap_state) 0 = Some th /\ results th = [RExec 0]) /\
+  (exists th, nth_error (threads gap_state) 2 = Some th /\ is_consumer th = true).
+Proof. exact gap_example. Qed.
